@@ -24,6 +24,9 @@ import sys
 from vp.util import run_cmd, InternalError, PRODUCT_DEFS, PRODUCT_FLAGS
 
 HERE = os.path.dirname(os.path.abspath(__file__))
+# unreferenced code is dropped; symbols that stay undefined (externals the scenario never reaches)
+# resolve to 0 in a static link instead of breaking the loader
+STATIC_LINK = ["-static", "-ffunction-sections", "-fdata-sections", "-Wl,--gc-sections", "-Wl,--unresolved-symbols=ignore-all"]
 
 DIRECT_MAIN = r'''
 /* direct native build of the harness: sequential script, no yields */
@@ -108,7 +111,7 @@ def _validate(ctx, q, qdir, incs, genc, paths, threads, setup, check, defs):
     with open(zeros, "w") as f:
         f.write("0\n" * 20000)
     exe_g = os.path.join(qdir, "val_gen.exe")
-    cmd = ["gcc", "-O0", "-w", "-DVP_NATIVE", "-o", exe_g] + PRODUCT_FLAGS + incs + [genc, "-Wl,--unresolved-symbols=ignore-in-object-files"]
+    cmd = ["gcc", "-O0", "-w", "-DVP_NATIVE", "-o", exe_g] + STATIC_LINK + PRODUCT_FLAGS + incs + [genc]
     rc, o, e, _, _ = run_cmd(cmd, cwd=qdir, timeout=300)
     if rc != 0:
         raise InternalError("translator validation: generated C does not compile natively: %s" % (e or o)[-2500:])
@@ -120,8 +123,8 @@ def _validate(ctx, q, qdir, incs, genc, paths, threads, setup, check, defs):
                                "decls": " ".join("extern void %s(void);" % t for t in threads),
                                "calls": " ".join("%s();" % t for t in threads)})
     exe_d = os.path.join(qdir, "val_direct.exe")
-    cmd = (["gcc", "-O0", "-w", "-DVP_NATIVE", "-o", exe_d] + PRODUCT_DEFS + PRODUCT_FLAGS + ["-D" + d for d in defs] +
-           incs + paths + [dm, "-lpthread", "-Wl,--unresolved-symbols=ignore-in-object-files"])
+    cmd = (["gcc", "-O0", "-w", "-DVP_NATIVE", "-o", exe_d] + STATIC_LINK + PRODUCT_DEFS + PRODUCT_FLAGS + ["-D" + d for d in defs] +
+           incs + paths + [dm, "-lpthread"])
     rc, o, e, _, _ = run_cmd(cmd, cwd=qdir, timeout=300)
     if rc != 0:
         raise InternalError("translator validation: direct build failed: %s" % (e or o)[-2500:])
